@@ -24,6 +24,12 @@ Status (after the repairs fix-c07-2 … fix-c07-5 in /repo; the pre-repair code 
   `C07_nested_suspend_witness` (F-C07-4), `C07_none_inline_witness` (F-C07-5);
   API-misuse only: `C07_api_misuse_witness` (F-C07-1, not reachable from views: `C07_views_wellformed` gives
   `OooWf`, whose resolved lists are `[ooo…, sync]`).
+* open findings (known classes), kernel witnesses: `C07_late_read_witness`, `C07_late_read_loaded_witness` (F-C07-6,
+  `sync-read-late`: a server resource read synchronously for the first time while its boundary resolves its children
+  is not waited for — the view theorems carry the decidable hypothesis `noLate`, which excludes exactly these views);
+  `C07_suspend_nonce_witness` (F-C07-8, `suspend-no-nonce`).  F-C07-7 (`ooo-branch-markers`) and F-C07-9
+  (`nonce-unescaped`, API only) live on the harness side: branch markers and the nonce are text the driver puts into
+  the view (Driver/C07 `parseViews`: modes `iob`/`ooob`/`…n`), every theorem below applies to those views as it stands.
 -/
 namespace Leptos.Stream
 
